@@ -23,7 +23,7 @@ RULE = ("wishbone.Decoder geometries (data width 8-64, granularity <= data width
         "subordinates with different feature sets and an unassigned address. Distinct = canonical JSON.")
 BUDGET = {"quick": (16, 250), "thorough": (16, 5000)}
 ESSENTIAL = ["sparse", "dense", "unassigned_address", "aw0", "granularity<dw", "default_lock", "default_cti",
-             "default_bte", "sub_lacks_err", "sub_has_err", "shuffled", "stall", "refused_add_ghost"]
+             "default_bte", "sub_lacks_err", "sub_has_err", "shuffled", "stall", "refused_add_ghost", "add_after_elaboration", "readd_refused", "decoder_beyond_32_address_bits"]
 ASSUMPTIONS = [
     "subordinates respond (ack/err/rty/stall) only while selected, as Wishbone requires; their dat_r is arbitrary",
     "dense windows onto a finer-granularity subordinate and sparse windows narrower than one decoder word are excluded by construction (open known findings K1/K2, probed by pinned cases)",
@@ -58,6 +58,8 @@ def check(spec, stats):
     dec, ifaces, plan = gens.build_wb_decoder(cfg)
     bus = dec.bus
     aw, dw, g = bus.addr_width, cfg["dw"], cfg["g"]
+    stats.label("add_after_elaboration", getattr(dec, "mid_elaborated", False) and cfg["mid_elab"] < len(ifaces) - 1)
+    stats.label("readd_refused", getattr(dec, "readd_refused", False))
     gbits = (dw // g).bit_length() - 1
     nsel = dw // g
     mm = bus.memory_map
@@ -96,9 +98,22 @@ def check(spec, stats):
     def has(f, name):
         return hasattr(f, name)
 
+    if aw <= 10:
+        sweep = range(1 << aw)
+    else:
+        # huge decoders: window boundaries +-1 (in words) and a sample
+        pts = {0, (1 << aw) - 1}
+        for _, s_, oe, re in wins:
+            for x in (s_ >> gbits, oe >> gbits, re >> gbits):
+                pts.update(y for y in (x - 1, x, x + 1) if 0 <= y < (1 << aw))
+            pts.update((s_ >> gbits) + hval(seed, "in", k, 8) % max(1, (oe - s_) >> gbits) for k in range(20))
+        pts.update(hval(seed, "addr", k, aw) for k in range(200))
+        sweep = sorted(pts)
+        stats.label("decoder_beyond_32_address_bits", aw > 32)
+
     async def tb(ctx):
         t = 0
-        for adr in range(1 << aw):
+        for adr in sweep:
             sel_w = select(adr)
             for v in range(spec["vectors"]):
                 t += 1
